@@ -87,6 +87,22 @@ def worker_unit(args):
     return res
 
 
+def worker_validate(args):
+    modname, case = args
+    try:
+        from engine import Engine
+        import replay as replay_mod
+        mod = importlib.import_module(modname)
+        progs = _load_progs(mod.PROGRAMS)
+        ekey = ('vengine', modname)
+        e = _W.get(ekey)
+        if e is None:
+            e = _W[ekey] = Engine(progs[getattr(mod, 'VALIDATION_PROG', 'core')])
+        return mod.validate_case(e, progs, replay_mod, case)
+    except Exception as ex:
+        return {'case': case, 'error': '%s: %s' % (type(ex).__name__, ex), 'trace': traceback.format_exc()[-1500:]}
+
+
 def chunk(lst, n):
     k = max(1, (len(lst) + n - 1) // n)
     return [lst[i:i + k] for i in range(0, len(lst), k)]
@@ -199,6 +215,14 @@ def main():
         pending = nxt
         if not progressed:
             time.sleep(0.02)
+    # engine validation cases that the harness wants run in parallel
+    val_par = {'runs': 0, 'mismatches': []}
+    if hasattr(mod, 'validation_cases') and not args.no_validate:
+        cases = mod.validation_cases(tier, seed)
+        for r in pool.imap_unordered(worker_validate, [(modname, c) for c in cases]):
+            val_par['runs'] += 1
+            if r is not None:
+                val_par['mismatches'].append(r)
     pool.close(); pool.join()
     if unfinished:
         problems.append('time budget (%ds) exhausted with %d unexplored path prefixes: bound not covered' % (budget_total, unfinished))
@@ -210,6 +234,8 @@ def main():
 
     # 3. engine validation (concrete differential runs of the engine against the native library)
     val = {'runs': 0, 'mismatches': []}
+    for mm in val_par['mismatches'][:5]:
+        problems.append('engine validation mismatch: %s' % json.dumps(mm, ensure_ascii=False, default=str)[:700])
     if hasattr(mod, 'validate') and not args.no_validate:
         try:
             progs = _load_progs(mod.PROGRAMS)
@@ -264,7 +290,7 @@ def main():
 
     wall = time.time() - t_start
     write_evidence(ev_path, pid, tier, seed, agg, {'stubs': stubs, 'fns': fns, 'reached': reached, 'per_job': per_job, 'units': units},
-                   confirmed, known_hit, problems, t_start, mod, prog_info, len(jobs), val.get('runs', 0), samples, unconfirmed)
+                   confirmed, known_hit, problems, t_start, mod, prog_info, len(jobs), val.get('runs', 0) + val_par['runs'], samples, unconfirmed)
     print('%s tier=%s: %d jobs, %d paths, %d MIR statements, %d feasibility queries, %d assertion queries (%d violated), solver %.1fs, wall %.1fs'
           % (pid, tier, len(jobs), agg['paths'], agg['steps'], agg['feas_checks'], agg['assert_checks'], agg['assert_violated'], agg['solver_s'], wall))
     if problems:
